@@ -6,7 +6,7 @@ from props import _maps
 
 ID = 'C16'
 LEAN_MODULES = ['Proofs.C16']
-REQUIRED = ['C16.forward_none_iff', 'C16.subsetVector_length',
+REQUIRED = ['C16.forward_none_iff', 'C16.chainVector_same_chain_iff', 'C16.cycle_vector_wf', 'C16.subsetVector_length',
             'C16.subsetVector_spec',
             'C16.subsetVector_size',
             'C16.subsetVector_unique',
